@@ -124,7 +124,7 @@ func runVerify(t *testing.T, c *engine.Check) {
 
 func verifyCase(t *testing.T, r *rig.Rig, reg map[string]map[string]string, g func(string) string) engine.Result {
 	a := decodeAssertion(g)
-	cfg := vcfg{issuer: I, maxAge: mustDur(g("maxAge")), offset: mustDur(g("offset")), reg: reg}
+	cfg := vcfg{issuer: I, maxAge: mustDur(g("maxAge")), offset: mustDur(g("offset")), reg: reg, regName: "verify:" + g("reg")}
 	if g("vIssuer") == "I2" {
 		cfg.issuer = I2
 	}
